@@ -100,7 +100,7 @@ def check(ctx):
             ok = ta[0][3][0] == ("field", ("downcast", pr[0][4], "Ok"), "0") and "lookahead.pattern" in S.fstr(pr[0][3][0])
             ctx.ob("C15.d", "lookahead:pattern-parsed-and-converted", ok, "try_from_ast(%s) of parse(%s)" % (S.vstr(ta[0][3][0])[:50], S.vstr(pr[0][3][0])[:50]), tl.loc())
             # same pipeline as patterns: Nfa -> CompiledDfa::from (closure construction + minimizer)
-            conv = [e for e in p.events if e[0] == "call" and re.search(r"Into<internal::compiled_dfa::CompiledDfa>>::into$", e[2])]
+            conv = [e for e in p.events if e[0] == "call" and re.search(r"Into<internal::compiled_dfa::CompiledDfa>>::into$|CompiledDfa as std::convert::From<internal::nfa::Nfa>>::from$", e[2])]
             ctx.ob("C02.h", "lookahead:compiled-through-the-same-pipeline", len(conv) == 1, "Nfa -> CompiledDfa conversions: %d" % len(conv), tl.loc())
             ctx.ob("C15.d", "lookahead:compiled-through-the-same-pipeline", len(conv) == 1, "Nfa -> CompiledDfa conversions: %d" % len(conv), tl.loc())
     ctx.ob("C15.d", "lookahead:all-outcomes", seen == {"parse-err", "convert-err", "ok"}, "outcomes %s" % sorted(seen), tl.loc())
